@@ -132,3 +132,95 @@ class ClosureMonitor(Monitor):
         if market.closed is not False or market.orders_cleared or market.market_cleared:
             self.violate(self.P, "C20.flags", "market-not-reopened-by-new-data", closed=market.closed, orders_cleared=market.orders_cleared, market_cleared=market.market_cleared)
         self.was_closed[mid] = False
+
+
+class LiveClosureMonitor(Monitor):
+    """C20 in the live loop: callbacks incl. empty-filter strategies, flags, retention (> 3600 s closed), release."""
+
+    P = "C20"
+
+    def __init__(self, run):
+        super().__init__(run)
+        self.cur = None
+        self.closed_at = {}  # market id -> simulated time (s) of the close that is currently in force
+        self.removed = []
+
+    def on_close_before(self, fw, event):
+        mb = event.event
+        mid = mb.market_id
+        market = fw.markets.markets.get(mid)
+        now = self.run.now
+        # markets that have been closed for more than an hour must be removed by this close event, no others
+        expected = sorted(m for m, t in self.closed_at.items() if fw.markets.markets.get(m) is not None and fw.markets.markets[m].closed and now - t > 3600)
+        self.cur = {"mid": mid, "pt": mb.publish_time_epoch, "market": market, "calls": {}, "removed": [], "expected_removed": expected, "was_closed": bool(market is not None and market.closed)}
+
+    def on_strategy_closed(self, strategy, market, mb):
+        if self.cur is None:
+            self.violate(self.P, "C20.callback", "closed-market-callback-outside-closure", strategy=strategy.name)
+            return
+        self.cur["calls"][strategy.name] = self.cur["calls"].get(strategy.name, 0) + 1
+        if getattr(mb, "status", None) != "CLOSED" or mb.publish_time_epoch != self.cur["pt"]:
+            self.violate(self.P, "C20.callback", "callback-not-given-the-closing-book", strategy=strategy.name)
+
+    def on_remove_market(self, fw, market, clear):
+        if self.cur is not None:
+            self.cur["removed"].append(market.market_id)
+        else:
+            self.violate(self.P, "C20.retention", "market-removed-outside-a-close-event", market=market.market_id)
+        for a in self.run.agents:
+            left = [k for k in a._invested if k[0] == market.market_id]
+            if left:
+                self.violate(self.P, "C20.release", "runner-contexts-not-released", strategy=a.name)
+        if clear and market.market_id in fw.markets.markets:
+            self.violate(self.P, "C20.release", "market-still-registered-after-removal", market=market.market_id)
+
+    def on_close_after(self, fw, event):
+        c, self.cur = self.cur, None
+        if c is None:
+            return
+        mid = c["mid"]
+        pr = self.res.probes
+        for ss in self.run.scenario["strategies"]:
+            got = c["calls"].get(ss["name"], 0)
+            if got != 1:
+                site = ("empty-filter-strategy-" if ss.get("empty_filter") else "") + ("callback-missing" if got == 0 else "callback-twice")
+                self.violate(self.P, "C20.callback", site, strategy=ss["name"], got=got, market=mid)
+            if ss.get("empty_filter"):
+                pr["c20.live.empty_filter_strategy_close"] += 1
+                self.res.nontrivial = True
+        market = c["market"]
+        if market is not None and mid not in c["removed"]:
+            if market.closed is not True or market.date_time_closed is None:
+                self.violate(self.P, "C20.flags", "market-not-marked-closed", closed=market.closed)
+        if not c["was_closed"]:
+            self.closed_at[mid] = self.run.now
+        if sorted(c["removed"]) != c["expected_removed"]:
+            early = [m for m in c["removed"] if m not in c["expected_removed"]]
+            late = [m for m in c["expected_removed"] if m not in c["removed"]]
+            site = "market-removed-before-closed-for-an-hour" if early else "market-closed-for-over-an-hour-not-removed"
+            self.violate(self.P, "C20.retention", site, removed=c["removed"], expected=c["expected_removed"], closed_for={m: round(self.run.now - self.closed_at[m], 1) for m in set(early + late) if m in self.closed_at})
+        if c["expected_removed"]:
+            pr["c20.live.retention_crossed_3600s"] += 1
+            self.res.nontrivial = True
+        for m in c["removed"]:
+            self.closed_at.pop(m, None)
+        if c["was_closed"]:
+            pr["c20.live.repeated_close"] += 1
+            self.res.nontrivial = True
+
+    def on_main_event(self, ev):
+        if ev.EVENT_TYPE.name == "MARKET_BOOK":
+            for mb in ev.event:
+                if mb.status != "CLOSED" and mb.market_id in self.closed_at:
+                    m = self.run.fw.markets.markets.get(mb.market_id)
+                    if m is not None and m.closed:
+                        self.reopen_pending = mb.market_id
+
+    def on_strategy_call(self, strategy, market, kind):
+        mid = getattr(self, "reopen_pending", None)
+        if mid is not None and market.market_id == mid:
+            self.reopen_pending = None
+            self.res.probes["c20.live.data_after_close"] += 1
+            if market.closed is not False or market.orders_cleared or market.market_cleared:
+                self.violate(self.P, "C20.flags", "market-not-reopened-by-new-data", closed=market.closed)
+            self.closed_at.pop(mid, None)
